@@ -117,6 +117,16 @@ func genIndex(rng *rand.Rand, sha256 bool) desync.Index {
 		}
 		var id desync.ChunkID
 		rng.Read(id[:])
+		if rng.Intn(25) == 0 {
+			// IDs made of the bytes the format itself is made of: zeros, all ones, the table's tail marker and the
+			// element type constants at the 8-byte positions a parser looks at
+			consts := []uint64{0, ^uint64(0), desync.CaFormatTableTailMarker, desync.CaFormatTable, desync.CaFormatIndex, 48, 40}
+			for w := 0; w < 4; w++ {
+				if rng.Intn(2) == 0 {
+					binary.LittleEndian.PutUint64(id[8*w:], consts[rng.Intn(len(consts))])
+				}
+			}
+		}
 		idx.Chunks = append(idx.Chunks, desync.IndexChunk{ID: id, Start: start, Size: size})
 		start += size
 	}
